@@ -323,6 +323,12 @@ func (t *stdioClientTransport) readLoop() {
 				break
 			}
 			t.logger.Errorf("Error reading message: %v", err)
+			// A decoding error is sticky: drop the rest of the offending line and go on with a fresh decoder.
+			rest := bufio.NewReader(io.MultiReader(t.decoder.Buffered(), t.stdout))
+			if _, rerr := rest.ReadString('\n'); rerr != nil {
+				break
+			}
+			t.decoder = json.NewDecoder(rest)
 			continue
 		}
 
